@@ -109,7 +109,23 @@ def pcgrad(index, ctx):
     stray = [n for n in ast.walk(inner) if isinstance(n, ast.Continue)]
     ctx.require(okc and len(stray) == len(conts), "R1", "PCGrad: only the row itself is skipped", "continue only when j == i",
                 "a `continue` in the projection loop is not guarded by `j == i` alone", _loc(fi, conts[0]) if conts else fi.loc())
-    skips_self = bool(conts) or any(isinstance(c, ast.Compare) and isinstance(c.ops[0], ast.NotEq) and {jvar, ivar} <= names_read(c) for c in ast.walk(inner))
+    def filters_self(it):
+        """The sequence iterated by the projection loop has row i filtered out: `order[order != i]` or `[j for j in order if j != i]`."""
+        from ..astutil import inline_locals
+
+        it = inline_locals(it, fn, keep={ivar or ""})
+        for n in ast.walk(it):
+            if isinstance(n, ast.Subscript) and isinstance(n.slice, ast.Compare) and len(n.slice.ops) == 1 and isinstance(n.slice.ops[0], ast.NotEq) \
+                    and ivar in names_read(n.slice) and norm_text(n.value) in (norm_text(n.slice.left), norm_text(n.slice.comparators[0])):
+                return True
+            if isinstance(n, (ast.ListComp, ast.GeneratorExp)) and len(n.generators) == 1 and isinstance(n.generators[0].target, ast.Name) \
+                    and isinstance(n.elt, ast.Name) and n.elt.id == n.generators[0].target.id:
+                tv_ = n.generators[0].target.id
+                if any(isinstance(c, ast.Compare) and len(c.ops) == 1 and isinstance(c.ops[0], ast.NotEq) and {tv_, ivar} <= names_read(c) for c in n.generators[0].ifs):
+                    return True
+        return False
+
+    skips_self = bool(conts) or any(isinstance(c, ast.Compare) and isinstance(c.ops[0], ast.NotEq) and {jvar, ivar} <= names_read(c) for c in ast.walk(inner)) or filters_self(inner.iter)
     ctx.require(skips_self, "R1", "PCGrad: a row is never projected off itself", "the loop skips j == i",
                 "the projection loop no longer skips j == i: once row i conflicts with its own projected vector its coefficient is altered (outputs outside the published candidate set for m >= 3)", _loc(fi, inner))
     # accumulation of the projected vector in the outer loop, after the inner loop
@@ -178,7 +194,10 @@ def graddrop(index, ctx, A, by_class):
     # the mask itself: (fP > U)·(row > 0) + (fP < U)·(row < 0)
     ms = [s for s in masks if s.targets[0].id == M]
     if ms:
-        cmp = [(norm_text(c.left), type(c.ops[0]).__name__, norm_text(c.comparators[0])) for c in ast.walk(ms[0].value) if isinstance(c, ast.Compare)]
+        from ..astutil import inline_locals
+
+        mexpr = inline_locals(ms[0].value, fn, keep={M})  # hoisted sub-masks (`keep = s > U`) read in place
+        cmp = [(norm_text(c.left), type(c.ops[0]).__name__, norm_text(c.comparators[0])) for c in ast.walk(mexpr) if isinstance(c, ast.Compare)]
         # orientation: the row (resp. the sign statistic) on the left, so that `0 < row` reads `row > 0`
         flip = {"Gt": "Lt", "Lt": "Gt", "GtE": "LtE", "LtE": "GtE"}
         cmp = [(r, flip.get(o, o), l) if (r == row_syms[0] or (l in ("0", "0.0"))) and l != row_syms[0] else (l, o, r) for l, o, r in cmp]
@@ -285,22 +304,47 @@ def mgda(index, ctx, A, by_class):
 
     cfg = cfg_of(fi.node)
     gname = None
+    step_fn = None  # (FunctionInfo, cfg) of a helper that returns the step size, when the choice is not inlined in the loop
     for n in names_read(u.value):
-        if any(isinstance(s2, ast.Assign) and isinstance(s2.targets[0], ast.Name) and s2.targets[0].id == n and isinstance(s2.value, ast.BinOp) and isinstance(s2.value.op, ast.Div)
-               for s2 in ast.walk(loop)):
-            gname = n
+        for s2 in ast.walk(loop):
+            if isinstance(s2, ast.Assign) and isinstance(s2.targets[0], ast.Name) and s2.targets[0].id == n:
+                if isinstance(s2.value, ast.BinOp) and isinstance(s2.value.op, ast.Div):
+                    gname = n
+                elif isinstance(s2.value, ast.Call):
+                    f = s2.value.func
+                    callee = None
+                    if isinstance(f, ast.Name):
+                        callee = index.resolve_name(fi.module, f.id)
+                    elif isinstance(f, ast.Attribute) and isinstance(f.value, ast.Name) and f.value.id in ("self", "cls", cls.name):
+                        r2 = cls.lookup(f.attr)
+                        callee = r2[1] if r2 else None
+                    from ..index import FunctionInfo
+
+                    if isinstance(callee, FunctionInfo) and any(isinstance(r3, ast.Return) and isinstance(r3.value, ast.BinOp) and isinstance(r3.value.op, ast.Div) for r3 in ast.walk(callee.node)):
+                        gname = n
+                        step_fn = (callee, cfg_of(callee.node), s2.value)
     if gname is None:
         ctx.undecided("R5", "MGDA: step size", "closed-form step size assignment not recognised", _loc(fi, loop))
     else:
-        closed = [nd for nd in cfg.stmt_nodes() if nd.kind == "stmt" and isinstance(nd.ast, ast.Assign) and isinstance(nd.ast.targets[0], ast.Name) and nd.ast.targets[0].id == gname
-                  and isinstance(nd.ast.value, ast.BinOp) and isinstance(nd.ast.value.op, ast.Div)]
-        consts = [nd.ast.value.value for nd in cfg.stmt_nodes() if nd.kind == "stmt" and isinstance(nd.ast, ast.Assign) and isinstance(nd.ast.targets[0], ast.Name)
-                  and nd.ast.targets[0].id == gname and isinstance(nd.ast.value, ast.Constant)]
-        for nd in closed:
-            num, den = nd.ast.value.left, nd.ast.value.right
+        if step_fn is None:
+            scfg, sfi, rename = cfg, fi, {}
+            closed = [(nd, nd.ast.value) for nd in cfg.stmt_nodes() if nd.kind == "stmt" and isinstance(nd.ast, ast.Assign) and isinstance(nd.ast.targets[0], ast.Name) and nd.ast.targets[0].id == gname
+                      and isinstance(nd.ast.value, ast.BinOp) and isinstance(nd.ast.value.op, ast.Div)]
+            consts = [nd.ast.value.value for nd in cfg.stmt_nodes() if nd.kind == "stmt" and isinstance(nd.ast, ast.Assign) and isinstance(nd.ast.targets[0], ast.Name)
+                      and nd.ast.targets[0].id == gname and isinstance(nd.ast.value, ast.Constant)]
+        else:
+            sfi, scfg, call = step_fn
+            ctx.analysed(sfi.qualname)
+            closed = [(nd, nd.ast.value) for nd in scfg.stmt_nodes() if isinstance(nd.ast, ast.Return) and isinstance(nd.ast.value, ast.BinOp) and isinstance(nd.ast.value.op, ast.Div)]
+            consts = [nd.ast.value.value for nd in scfg.stmt_nodes() if isinstance(nd.ast, ast.Return) and isinstance(nd.ast.value, ast.Constant)]
+            other = [nd for nd in scfg.stmt_nodes() if isinstance(nd.ast, ast.Return) and not isinstance(nd.ast.value, ast.Constant) and not (isinstance(nd.ast.value, ast.BinOp) and isinstance(nd.ast.value.op, ast.Div))]
+            if other:
+                ctx.undecided("R5", "MGDA: step size", f"`{norm_text(other[0].ast)}` in {sfi.short} is neither a constant nor the closed form", sfi.loc(other[0].ast))
+        for nd, val in closed:
+            num, den = val.left, val.right
             pn, pd = expr_poly(num), expr_poly(den)
             facts = []
-            for t, lbl in cfg.guards_of(nd):
+            for t, lbl in scfg.guards_of(nd):
                 if t.kind == "test" and isinstance(t.ast, ast.If):
                     for c, tr in implied_conditions(t.ast.test, lbl):
                         if isinstance(c, ast.Compare) and len(c.ops) == 1:
@@ -318,7 +362,7 @@ def mgda(index, ctx, A, by_class):
             ctx.require(pos_num and pos_rest, "R5", "MGDA: closed-form step size lies in (0, 1)", f"guards imply {pn} > 0 and {pd - pn if pd is not None and pn is not None else '?'} > 0",
                         f"`{norm_text(nd.ast)}` is used on a branch where " + ("; ".join(x for x, ok in ((f"{pn} > 0 is not guaranteed (step could be negative)", pos_num),
                                                                                                       (f"{pd - pn if pd is not None and pn is not None else '?'} > 0 is not guaranteed (step could exceed 1: the iterate leaves the simplex)", pos_rest)) if not ok)),
-                        _loc(fi, nd.ast), derivation={"facts": [repr(f) for f in facts]})
+                        sfi.loc(nd.ast) if step_fn else _loc(fi, nd.ast), derivation={"facts": [repr(f) for f in facts]})
         ctx.require(all(isinstance(c, (int, float)) and 0 <= c <= 1 for c in consts), "R5", "MGDA: constant step sizes lie in [0, 1]", f"constants {consts}", f"constant step sizes {consts}", _loc(fi, loop))
     # early exits of the optimisation loop
     exits = [nd for nd in cfg.stmt_nodes() if isinstance(nd.ast, (ast.Break, ast.Return)) and any(nd.ast is x for x in ast.walk(loop))]
